@@ -1,12 +1,12 @@
 #!/bin/bash
 # C19 overlay: chunk.go/to2.go onto the scheduler shims, plus a scheduling point before every statement of
-# internal/nistkdf and kex; also builds the free-running -race auxiliary from the unrewritten tree.
+# internal/nistkdf, kex and cose; also builds the free-running -race auxiliary from the unrewritten tree.
 set -e
 OUT="$1"; D=/verif/.cache/overlay/c19; mkdir -p "$D"
 export GOFLAGS=-mod=mod GOPROXY=off
 cd /verif
 go build -o .cache/bin/rewrite ./cmd/rewrite
 printf '{"Replace":{"/repo/zz_verif_export.go":"/verif/overlay/fdo_export.go","/repo/kex/zz_verif_export.go":"/verif/overlay/kex_export.go"}}\n' > "$D/base.json"
-Y=$(ls /repo/internal/nistkdf/*.go /repo/kex/*.go | grep -v _test.go | tr '\n' ',')
+Y=$(ls /repo/internal/nistkdf/*.go /repo/kex/*.go /repo/cose/*.go | grep -v _test.go | tr '\n' ',')
 .cache/bin/rewrite -out "$D" -json "$OUT" -base "$D/base.json" -yield "$Y" /repo/serviceinfo/chunk.go /repo/to2.go $(echo "$Y" | tr ',' ' ') >/dev/null
 go build -race -tags verif -overlay "$D/base.json" -o .cache/bin/c19_race ./checks/c19/race
